@@ -735,6 +735,7 @@ func (s *Sim) Transfer(rt *rapid.T) {
 	for _, q := range s.Positions() {
 		before[q.PositionId] = true
 	}
+	claimBefore := s.claimableOf(id)
 	r := s.C.Exec(&cltypes.MsgTransferPositions{PositionIds: []uint64{id}, Sender: chain.Actor(p.Owner).String(), NewOwner: chain.Actor(to).String()})
 	if p.Bound(s.C.Ctx.BlockTime()) {
 		if r.OK() {
@@ -754,7 +755,21 @@ func (s *Sim) Transfer(rt *rapid.T) {
 			if q.Address != chain.Actor(to).String() || q.LowerTick != p.Lower || q.UpperTick != p.Upper {
 				rt.Fatalf("transfer of #%d to a%d produced position %d {%s [%d,%d)}", id, to, q.PositionId, q.Address, q.LowerTick, q.UpperTick)
 			}
-			s.Known[q.PositionId] = PosRec{Owner: to, Lower: q.LowerTick, Upper: q.UpperTick, Join: q.JoinTime, Mods: 1, Entered: p.Entered}
+			// a transfer neither loses nor duplicates what the position has earned: what it could collect (and what it
+			// would still forfeit) a moment ago is what the new owner's position can collect now; the harness keeps the join
+			// time IT recorded at creation, so that later claims are judged against the position's real age
+			claimAfter := s.claimableOf(q.PositionId)
+			for _, pair := range []struct {
+				what string
+				b, a map[string]*big.Int
+			}{{"claimable spread rewards", claimBefore.spread, claimAfter.spread}, {"collectable incentives", claimBefore.incent, claimAfter.incent}, {"forfeitable incentives", claimBefore.forfeit, claimAfter.forfeit}} {
+				for _, d := range append(append([]string{}, IncDenoms...), D0, D1) {
+					if get(pair.b, d).Cmp(get(pair.a, d)) != 0 {
+						rt.Fatalf("transfer of position #%d (joined %s ago) changed its %s of %s from %s to %s [history %v]", id, s.C.Ctx.BlockTime().Sub(p.Join), pair.what, d, get(pair.b, d), get(pair.a, d), s.Hist)
+					}
+				}
+			}
+			s.Known[q.PositionId] = PosRec{Owner: to, Lower: q.LowerTick, Upper: q.UpperTick, Join: p.Join, Mods: 1, Entered: p.Entered}
 		}
 	}
 	s.LPOps += 2
